@@ -107,6 +107,7 @@ InputChoices ==
    \cup {<< <<p, "">>, <<p, v>> >> : p \in Signed, v \in {"", "wit", "dleq", "amtx"}}
    \cup {<< <<p, v>> >> : p \in {x \in Signed : S.sig[x].sec \in DOMAIN S.proof /\ S.proof[S.sig[x].sec].lock # "none"},
                            v \in {"nosign", "signother"}}
+   \cup {<< >>}     \* a request without any input
 
 \* honest input lists: up to three distinct unspent proofs worth at least `need` plus their fee
 HonestChoices(need) ==
@@ -167,9 +168,10 @@ PollMintAct ==
        /\ Record([op |-> "pollmint", q |-> q])
   /\ UNCHANGED <<nb, nmq, nlq>>
 
-\* output amount lists for a value v: exact split, one unit less, one unit more, two halves
+\* output amount lists for a value v: exact split, one unit less, one unit more, and (rarely) no outputs at all
 AmountLists(v) ==
   {SplitOf(v)} \cup (IF v > 1 THEN {SplitOf(v - 1)} ELSE {}) \cup {SplitOf(v) \o <<1>>}
+  \cup (IF Sim /\ Often(12) THEN {<< >>} ELSE {})
 
 MintAct ==
   /\ On("mint")
